@@ -55,6 +55,7 @@ def check(ctx, report):
     module_level_state(ctx, report, RULE='C10.R12', title='decoding a code point does not depend on code points decoded earlier: no function changes a module level container')
     exclusive_member_ranges(ctx, report)
     parsed_sequences_kept(ctx, report)
+    no_item_collapse(ctx, report, RULE='C10.R16')
     stateless_parsing(ctx, report, RULE='C10.R13', allow_memo=True,
                       modules=('cryptoparser/common/base.py', 'cryptoparser/common/parse.py', 'cryptoparser/tls/ciphersuite.py', 'cryptoparser/tls/algorithm.py',
                                'cryptoparser/tls/grease.py', 'cryptoparser/tls/version.py', 'cryptoparser/dnsrec/record.py', 'cryptoparser/ssh/subprotocol.py'),
@@ -214,6 +215,114 @@ def parsed_sequences_kept(ctx, report, RULE='C10.R15', title=None):
                     break
     report.count(RULE, n)
     report.floor(RULE, 200, 'parse functions')
+
+
+def no_item_collapse(ctx, report, RULE, title=None, only=None):
+    """The counterpart of ``parsed_sequences_kept`` for the writing side (composers, renderings, fingerprints): what the object
+    holds twice is written twice.  Reported in every function of the package outside the parse functions (which R15 decides):
+    (a) a sequence handed on after a round through a set / mapping that keeps one entry per key - ``list(OrderedDict.fromkeys(s))``,
+    ``list(set(s))``, ``sorted(set(s))``, or a local mapping / set filled in a loop (or from a comprehension) whose keys / values / own
+    iteration is what leaves the function; (b) an accumulator filled under ``if item not in accumulator``.  The rule carries its
+    own positive samples (both forms) and fails closed when they are not recognised."""
+    report.rule(RULE, title or 'composers, renderings and fingerprints hand on every item of a stored sequence: no de-duplication through a set / mapping or a membership test')
+    MAKERS = ('dict', 'set', 'OrderedDict', 'collections.OrderedDict', 'frozenset')
+    FROMKEYS = ('dict.fromkeys', 'collections.OrderedDict.fromkeys', 'OrderedDict.fromkeys', 'set', 'frozenset')
+    NEUTRAL = ('len', 'any', 'all', 'max', 'min', 'sum', 'bool', 'isinstance')
+
+    def findings(fnode):
+        out = []
+        parents = {}
+        for x in ast.walk(fnode):
+            for ch in ast.iter_child_nodes(x):
+                parents[ch] = x
+        made = {}
+        for st in ast.walk(fnode):
+            if isinstance(st, ast.Assign) and len(st.targets) == 1 and isinstance(st.targets[0], ast.Name):
+                v = st.value
+                if isinstance(v, (ast.Dict, ast.DictComp, ast.SetComp, ast.Set)) or \
+                        (isinstance(v, ast.Call) and ast.unparse(v.func) in MAKERS + FROMKEYS):
+                    made[st.targets[0].id] = v
+        # (a1) direct round trip: list / tuple / sorted / join over X.fromkeys(seq) or set(seq)
+        for x in ast.walk(fnode):
+            if isinstance(x, ast.Call) and ast.unparse(x.func) in FROMKEYS and x.args and not isinstance(x.args[0], (ast.Constant,)):
+                par = parents.get(x)
+                if isinstance(par, ast.Call) and x in par.args and not (isinstance(par.func, ast.Name) and par.func.id in NEUTRAL):
+                    out.append(('collapsed[%s]' % ast.unparse(x.func), '%s keeps one entry per distinct item of %s and is handed to %s' % (
+                        ast.unparse(x.func), ast.unparse(x.args[0])[:60], ast.unparse(par.func)[:40])))
+                elif isinstance(par, (ast.comprehension, ast.For)) and par.iter is x:
+                    out.append(('collapsed[%s]' % ast.unparse(x.func), 'iteration over %s visits one entry per distinct item' % ast.unparse(x)[:70]))
+        # (a2) local mapping / set filled from a sequence, read back as a sequence (a name that is a parameter of the function is
+        # left out: the function was handed a mapping under that name, and reading the keys of a mapping loses nothing)
+        params = {a.arg for a in fnode.args.args + fnode.args.kwonlyargs + fnode.args.posonlyargs} if hasattr(fnode, 'args') else set()
+        for name, v in made.items():
+            if name in params:
+                continue
+            from_sequence = isinstance(v, (ast.DictComp, ast.SetComp)) or (isinstance(v, ast.Call) and any(
+                isinstance(a, (ast.GeneratorExp, ast.ListComp, ast.Name, ast.Subscript, ast.Attribute, ast.Call)) for a in v.args))
+            filled_in_loop = any(isinstance(loop, (ast.For, ast.While)) and any(
+                (isinstance(y, ast.Subscript) and isinstance(y.ctx, ast.Store) and isinstance(y.value, ast.Name) and y.value.id == name) or
+                (isinstance(y, ast.Call) and isinstance(y.func, ast.Attribute) and y.func.attr in ('add', 'setdefault') and
+                 isinstance(y.func.value, ast.Name) and y.func.value.id == name) for y in ast.walk(loop)) for loop in ast.walk(fnode))
+            if not (from_sequence or filled_in_loop):
+                continue
+            for x in ast.walk(fnode):
+                seq = None
+                if isinstance(x, ast.Call) and isinstance(x.func, ast.Attribute) and x.func.attr in ('keys', 'values') and \
+                        isinstance(x.func.value, ast.Name) and x.func.value.id == name:
+                    seq = x
+                elif isinstance(x, ast.Name) and x.id == name and isinstance(x.ctx, ast.Load):
+                    par = parents.get(x)
+                    if isinstance(par, ast.Call) and x in par.args and isinstance(par.func, ast.Name) and par.func.id in ('list', 'tuple', 'sorted'):
+                        seq = x
+                    elif isinstance(par, ast.Call) and x in par.args and isinstance(par.func, ast.Attribute) and par.func.attr == 'join':
+                        seq = x
+                    elif isinstance(par, (ast.comprehension, ast.For)) and par.iter is x:
+                        seq = x
+                if seq is None:
+                    continue
+                par = parents.get(seq)
+                if isinstance(par, ast.Call) and isinstance(par.func, ast.Name) and par.func.id in NEUTRAL:
+                    continue
+                out.append(('collapsed[%s]' % name, 'the items are filed in the mapping / set %s and %s is what is handed on: an item that repeats a key is kept once' % (
+                    name, ast.unparse(seq))))
+                break
+        # (b) ``if item not in acc: acc.append(item)``
+        for x in ast.walk(fnode):
+            if isinstance(x, ast.If) and isinstance(x.test, ast.Compare) and len(x.test.ops) == 1 and isinstance(x.test.ops[0], ast.NotIn) and \
+                    isinstance(x.test.comparators[0], ast.Name):
+                acc = x.test.comparators[0].id
+                item = ast.unparse(x.test.left)
+                for y in x.body:
+                    for z in ast.walk(y):
+                        if isinstance(z, ast.Call) and isinstance(z.func, ast.Attribute) and z.func.attr in ('append', 'insert', 'extend') and \
+                                isinstance(z.func.value, ast.Name) and z.func.value.id == acc and any(item in ast.unparse(a) for a in z.args):
+                            out.append(('unique[%s]' % acc, '%s is added to %s only when no equal item is there yet: repeated items are written once' % (item, acc)))
+        return out
+
+    SAMPLE = (
+        "def compose(self):\n    return ','.join(list(OrderedDict.fromkeys(map(str, self._items))))\n",
+        "def _asdict(self):\n    seen = []\n    for s in self.value:\n        if s not in seen:\n            seen.append(s)\n    return seen\n",
+        "def _names(items):\n    names = collections.OrderedDict()\n    for i in items:\n        names[i.code] = i\n    return list(names)\n",
+    )
+    for text in SAMPLE:
+        if not findings(ast.parse(text).body[0]):
+            report.error('%s: the rule does not recognise its own positive sample %r' % (RULE, text[:40]))
+            return
+    n = 0
+    for f in ctx.model.functions():
+        if f.module.external or 'parse' in f.name:
+            continue
+        if only is not None and not only(f):
+            continue
+        n += 1
+        seen = set()
+        for key, detail in findings(f.node):
+            if key in seen:
+                continue
+            seen.add(key)
+            report.add(RULE, '%s@%s' % (f.construct, key), detail)
+    report.count(RULE, n)
+    report.floor(RULE, 300, 'functions of the package outside the parse functions')
 
 
 def exclusive_member_ranges(ctx, report, RULE='C10.R14'):
